@@ -283,6 +283,17 @@ def shard_country(arg):
             for form, v in dims.arg_forms(t, _IBAN):
                 must, defs = check_iban(rec, v, flag, f"argform:{form}")
                 rec.case(f"argform-{form}", (t, form, flag) if defs else None, {"text": t, "form": form, "validate_bban": flag})
+    # congruent alias spellings of the check digits (00, 01, 99): a checksum defect although the number is = 1 mod 97
+    from .c02 import solve_for_digits
+    for target in ("02", "97", "98"):
+        b2 = solve_for_digits(cc, g.natvalid_bban(cc, rng) or g.bban(cc, rng), g.classes(cc), target, rng)
+        if not b2:
+            continue
+        alias = f"{(int(target) + 97) % 100:02d}" if target == "02" else f"{int(target) - 97:02d}"
+        t = cc + alias + b2
+        for flag in (False, True):
+            must, defs = check_iban(rec, t, flag, "alias-spelling")
+            rec.case("alias-spelling", (t, flag) if defs else None, {"text": t, "validate_bban": flag, "canonical": target})
     # constructive multi-defect inputs: every subset of the six defect kinds, several draws each
     reps = 2 if quick else 12
     for r in range(1, len(DEFECTS) + 1):
@@ -420,6 +431,6 @@ def run(ctx):
         from ..engines import fuzz
         fuzz.run_campaign(ctx.rec, "iban-c05", 100000, ctx.seed, ctx.prop)   # secondary engine: coverage-guided, oracle inside
         fuzz.run_campaign(ctx.rec, "bic-c05", 100000, ctx.seed, ctx.prop)
-    ctx.require_classes("registry-formats", "ws-extreme", "ws-extreme-defects", "token", "argform-userstr", "argform-own-object", "bic-argform-own-object",
+    ctx.require_classes("alias-spelling", "registry-formats", "ws-extreme", "ws-extreme-defects", "token", "argform-userstr", "argform-own-object", "bic-argform-own-object",
                         "valid", "replace-defects-1", "replace-defects-2", "inject-1-defects", "inject-4-defects",
                         "nationally-invalid", "bic-base", "bic-multi-defects-3", "hyp-iban-near", "hyp-bic-near")
